@@ -632,7 +632,7 @@ def gen_obj(rng, opts, depth=0, budget=None, cls=None, nattrs=None):
     if cls is None and "module" in opts["kinds"] and rng.chance(0.12):
         return gen_hybrid(rng, opts)
     cls = cls or rng.weighted([("Plain", 4), ("Node", 3), ("Leaf", 2), ("Other", 1),
-                               ("AttrsLike", 1)])
+                               ("AttrsLike", 1), ("Inner", 1)])
     if cls == "AttrsLike":
         names = ["fa", "fb", "fc"]
     else:
